@@ -185,7 +185,7 @@ Proof.
   - destruct (ack_est t h) as [t2 r] eqn:Ea.
     assert (E2 : st t2 = LastAck) by (change t2 with (fst (t2, r)); rewrite <- Ea, ack_est_st; exact Est).
     destruct (is_fin_acked t2); destruct r; tsimpl; rewrite ?E2; reflexivity.
-  - tsimpl. rewrite enqueue_st, Est. reflexivity.
+  - destruct (c_fin (h_ctl h)); tsimpl; rewrite ?enqueue_st, Est; reflexivity.
 Qed.
 
 Lemma ps_ack_same_rcv t h : same_rcv t (fst (ps_ack t h)).
@@ -204,7 +204,7 @@ Proof.
         by (change t2 with (fst (t2, r)); rewrite <- Ea; apply ack_est_same_rcv).
       destruct r; tsimpl; exact F.
     + tsimpl. apply enqueue_same_rcv.
-  - tsimpl. unfold same_rcv. tsimpl. apply enqueue_same_rcv.
+  - destruct (c_fin (h_ctl h)); [|apply same_rcv_refl]. tsimpl. unfold same_rcv. tsimpl. apply enqueue_same_rcv.
 Qed.
 
 Lemma ps_ack_same_cfg t h : same_cfg t (fst (ps_ack t h)).
@@ -223,7 +223,7 @@ Proof.
         by (change t2 with (fst (t2, r)); rewrite <- Ea; apply ack_est_same_cfg).
       destruct r; tsimpl; exact F.
     + tsimpl. apply enqueue_same_cfg.
-  - tsimpl. unfold same_cfg. tsimpl. apply enqueue_same_cfg.
+  - destruct (c_fin (h_ctl h)); [|apply same_cfg_refl]. tsimpl. unfold same_cfg. tsimpl. apply enqueue_same_cfg.
 Qed.
 
 (* the results stage 2 can return *)
@@ -247,7 +247,7 @@ Proof.
     assert (E2 : st t2 = LastAck) by (change t2 with (fst (t2, r2)); rewrite <- Ea, ack_est_st; exact Est).
     destruct (ack_est_result t h) as [R|R]; rewrite Ea in R; cbn [snd] in R; subst r2;
       destruct (is_fin_acked t2) eqn:Ef; tsimpl; intros H; inversion H; auto 10.
-  - tsimpl. discriminate.
+  - destruct (c_fin (h_ctl h)); tsimpl; discriminate.
 Qed.
 
 (* ---- stage 3 ---- *)
